@@ -92,14 +92,33 @@ def h(t, part):
     for k in range(part['n']):
         e, ns = SLOTS[t.choice(4)]
         sid = sids[(e, ns)]
-        if k == 0 or part.get('full_second'):
+        if part.get('ret_trees'):
+            idk, eid, x, args = 2, t.int(1, 2), 7, []
+        if (k == 0 or part.get('full_second')) and not part.get('ret_trees'):
             idk = t.choice(4)
             eid = None if idk == 0 else 0 if idk == 1 else t.int(1, 2) if idk == 2 else BIG
             x = t.int(-3, 3)
             argform = t.choice(3)
             args = [[], [x], [b'\x01\x02', {'k': [x, b'z']}]][argform]
-            retform = t.choice(9)
-            ret = [None, x, 0, '', [x, 's'], {'a': x}, (x, 's'), b'bin', {'files': [b'f', {'t': b'g'}]}][retform]
+        if k == 0 or part.get('full_second') or part.get('ret_trees'):
+            if part.get('ret_trees'):
+                cntb = [0]
+
+                def rtree(d):
+                    kk = t.choice(3) if d > 0 else 0
+                    if kk == 0:
+                        if t.bool():
+                            return 7
+                        cntb[0] += 1
+                        return b'r%d' % cntb[0]
+                    nn = t.choice(3)
+                    if kk == 1:
+                        return [rtree(d - 1) for _ in range(nn)]
+                    return {['num', 'k1'][i]: rtree(d - 1) for i in range(nn)}
+                ret = rtree(2)
+            else:
+                retform = t.choice(9)
+                ret = [None, x, 0, '', [x, 's'], {'a': x}, (x, 's'), b'bin', {'files': [b'f', {'t': b'g'}]}][retform]
         else:
             # second event: fixed shape, any sender (order and per-client isolation)
             idk, eid, x = 2, t.int(1, 2), 5
@@ -179,6 +198,8 @@ def parts(tier):
         out += [{'async': a, 'who': 'fn', 'async_handlers': False, 'n': 2, 'first': f} for a in (False, True) for f in range(4)]
         out += [{'async': a, 'who': 'fn', 'async_handlers': False, 'n': 2, 'first': f, 'boom_first': True}
                 for a in (False, True) for f in range(3)]
+    # every return value tree of depth <= 2, width <= 2 over {x, bytes} leaves
+    out += [{'async': a, 'who': 'fn', 'async_handlers': False, 'n': 1, 'ret_trees': True, 'first': f} for a in (False, True) for f in range(3)]
     return out
 
 
@@ -190,7 +211,7 @@ META = dict(
                 'id, the arguments and the handler\'s return value drawn from the tape.',
     bounds={'quick': 'one event (two for the function-handler configuration) from {e0:/, e0:/a, e1:/, e1:/a (not '
                      'connected)}; id in {None, 0, symbolic 1..2, 10^20}; arguments in {(), (x), (bytes, '
-                     '{k:[x,bytes]})} with symbolic x; return in {None, x, 0, "", list, dict, tuple, bytes, dict->list->bytes}; responsible '
+                     '{k:[x,bytes]})} with symbolic x; return in {None, x, 0, "", list, dict, tuple, bytes, dict->list->bytes} and every tree of depth <= 2, width <= 2 over {x, bytes}; responsible '
                      'party in %r; async_handlers in {False, True}' % (WHO,),
             'thorough': 'two consecutive events in every configuration (second event of fixed shape from any sender; full '
                         'product for function handlers)'},
